@@ -266,6 +266,14 @@ STATE_METHODS = {
 # the primitives mirror this text of the class (doc strings and comments aside): sha256 of the ast dump of its methods
 STATE_GUARD = "bf841c8223628ed05d38c233699386b97f8813a766c28f2f299b42cdd65e0654"
 EXTERNAL_MODULE_CALLS = {("ast", "literal_eval"): ("PyTok.literal_eval", STATE_IMPORT)}
+# --- x3: licenses (C19)
+SELECTED += [("canonicalize_license_expression", "packaging.licenses", "canonicalize_license_expression")]
+# module-level tables that are regenerated as data elsewhere (`Generated/SpdxTables`): (module, name) -> run-time table name;
+# supported uses: `k in T`, `k not in T`, `T[k]["id"]`
+TABLE_GLOBALS = {("packaging.licenses", "LICENSES"): "LICENSES", ("packaging.licenses", "EXCEPTIONS"): "EXCEPTIONS"}
+TABLE_IMPORT = "PkgModel.PyLic"
+# compiled patterns matched with `.match` by a hand-written matcher: (pattern text, flags) -> (primitive, import)
+MATCH_PATTERNS = {("^[A-Za-z0-9.-]+$", 32): ("PyLic.ref_match", "PkgModel.PyLic")}
 # --- x3 end ---------------------------------------------------------------------------------------------------------
 
 
@@ -1066,6 +1074,10 @@ class Fn:
 
     def _in(self, l, r, negate):
         lv = self.val(l)          # Python evaluates the left operand first
+        special = self.x3_in(lv, r)
+        if special is not None:
+            t = f"(← {special})"
+            return f"!{t}" if negate else t
         rv = self.val(r)
         t = f"(← PyRt.contains {rv} {lv})"
         return f"!{t}" if negate else t
@@ -1111,6 +1123,10 @@ class Fn:
         if isinstance(e, ast.IfExp):
             c = self.scoped_cond(e.test)
             return False, f"(do if {c} then {self.scoped(e.body)} else {self.scoped(e.orelse)})"
+        if isinstance(e, ast.Subscript) and isinstance(e.value, ast.Subscript) and self.x3_table(e.value.value) is not None:
+            if isinstance(e.slice, ast.Constant) and e.slice.value == "id" and not isinstance(e.value.slice, ast.Slice):
+                return False, f'PyLic.tbl_id "{self.x3_table(e.value.value)}" {self.val(e.value.slice)}'
+            raise Unsupported("use of a regenerated table other than membership and [key][\"id\"]")
         if isinstance(e, ast.Subscript):
             base = self.val(e.value)
             if not isinstance(e.slice, ast.Slice) and self.x3_is_dict_expr(e.value):
@@ -1287,6 +1303,10 @@ class Fn:
                 return True, f"(PyRt.ne {self.val(l)} {self.val(r)})"
             if isinstance(op, (ast.In, ast.NotIn)):
                 lv = self.val(l)
+                special = self.x3_in(lv, r)
+                if special is not None:
+                    neg = "!" if isinstance(op, ast.NotIn) else ""
+                    return False, f"(do pure (PyVal.bool ({neg}(← {special}))))"
                 rv = self.val(r)
                 return False, f"PyRt.{'in_' if isinstance(op, ast.In) else 'not_in'} {lv} {rv}"
             if type(op) in _CMP:
@@ -2121,6 +2141,9 @@ class Fn:
             isinstance(n, ast.Name) and n.id == self.state_param for st in nodes for n in ast.walk(st))
 
     def x3_stmt(self, st, ind):
+        if self.x3_dead_message(st):
+            self.emit(ind, "pure ()")
+            return True
         if isinstance(st, ast.Try) and self.x3_uses_state(st.body):
             # a handler would see the tokenizer as it was when the `try` began (state monad), not as Python leaves it
             raise Unsupported(f"the {STATE_CLASS[1]} is used inside a try block")
@@ -2340,9 +2363,68 @@ class Fn:
         self.ctx.deps.setdefault(self.ctx.current, set()).add(name)
         return name
 
+    def x3_table(self, e):
+        """a module-level table that is regenerated as data: its run-time name, else None"""
+        if isinstance(e, ast.Name) and e.id not in self.locals and e.id not in self.bound_stack() \
+                and (self.pyfunc.__module__, e.id) in TABLE_GLOBALS and isinstance(self.globals.get(e.id), dict):
+            self.ctx.imports.add(TABLE_IMPORT)
+            return TABLE_GLOBALS[(self.pyfunc.__module__, e.id)]
+        return None
+
+    def x3_in(self, lv, r):
+        """`x in <set display of constants>` / `x in <regenerated table>`: an `M Bool` term, else None"""
+        if isinstance(r, ast.Set) and all(isinstance(x, ast.Constant) and isinstance(x.value, (str, int)) for x in r.elts):
+            return "PyRt.contains_set (PyVal.tuple [" + ", ".join(lconst(x.value) for x in r.elts) + f"]) {lv}"
+        t = self.x3_table(r)
+        if t is not None:
+            return f'PyLic.tbl_has "{t}" {lv}'
+        if self.x3_is_dict_expr(r):
+            return f"PyRt.dict_contains {self.val(r)} {lv}"
+        return None
+
+    def x3_dead_message(self, st):
+        """`name = f"…"` whose only uses are arguments of `raise Cls(name)`: the string is never observed (exceptions carry
+        their class only) and formatting names cannot raise"""
+        if not (isinstance(st, ast.Assign) and len(st.targets) == 1 and isinstance(st.targets[0], ast.Name)
+                and isinstance(st.value, ast.JoinedStr)):
+            return False
+        for v in st.value.values:
+            if isinstance(v, ast.FormattedValue) and not (isinstance(v.value, ast.Name) and v.format_spec is None):
+                return False
+        name = st.targets[0].id
+        parents = {}
+        for n in _walk_scope(self.node.body, into_exprs=True):
+            for c in ast.iter_child_nodes(n):
+                parents[c] = n
+        for n in _walk_scope(self.node.body, into_exprs=True):
+            if isinstance(n, ast.Name) and n.id == name and isinstance(n.ctx, ast.Load):
+                p_ = parents.get(n)
+                if not (isinstance(p_, ast.Call) and isinstance(parents.get(p_), ast.Raise) and parents[p_].exc is p_):
+                    return False
+        return True
+
     def x3_call(self, e, kws):
         f = e.func
         oracles = self.x3_oracles()
+        if isinstance(f, ast.Attribute) and f.attr == "split" and not e.args and not kws:
+            self.ctx.imports.add("PkgModel.PyLic")
+            return False, f"PyLic.str_split0 {self.val(f.value)}"
+        if isinstance(f, ast.Attribute) and f.attr == "translate" and len(e.args) == 1 and not kws and isinstance(e.args[0], ast.Name) \
+                and e.args[0].id not in self.locals:
+            import string as _string
+            if self.globals.get(e.args[0].id) == str.maketrans(_string.ascii_uppercase, _string.ascii_lowercase):
+                self.ctx.imports.add("PkgModel.PyLic")
+                return False, f"PyLic.ascii_lower {self.val(f.value)}"
+            raise Unsupported("str.translate with a table other than the ASCII lower-casing one")
+        if isinstance(f, ast.Attribute) and f.attr == "match" and isinstance(f.value, ast.Name) and f.value.id not in self.locals \
+                and type(self.globals.get(f.value.id)).__name__ == "Pattern" and len(e.args) == 1 and not kws:
+            pat = self.globals[f.value.id]
+            if (pat.pattern, pat.flags) in MATCH_PATTERNS:
+                fn, imp = MATCH_PATTERNS[(pat.pattern, pat.flags)]
+                self.ctx.imports.add(imp)
+                return False, f"{fn} {self.val(e.args[0])}"
+        if isinstance(f, ast.Name) and f.id == "zip" and f.id not in self.locals and len(e.args) == 2 and not kws:
+            return False, f"PyRt.zip2 {self.val(e.args[0])} {self.val(e.args[1])}"
         if isinstance(f, ast.Attribute) and isinstance(f.value, ast.Name) and f.value.id == self.state_param \
                 and f.value.id not in self.bound_stack():
             if f.attr not in STATE_METHODS:
